@@ -6,7 +6,7 @@
    infinite sum for a cut potential (both are monitored on every run; the latter fails in very flat
    cells - known finding D14). *)
 From Coq Require Import ZArith List Bool Reals. Import ListNotations.
-From PV Require Import Num NumR model.Geom proofs.LatticeFacts proofs.SiteFacts proofs.OverlapFacts proofs.PackingFacts proofs.LJFacts.
+From PV Require Import Num NumR model.Geom proofs.LatticeFacts proofs.SiteFacts proofs.OverlapFacts proofs.PackingFacts proofs.LJFacts proofs.RedescribeFacts proofs.LatticeSumFacts.
 
 Theorem C03_lj_sum_formula :
   forall st : ljstateR, lj_sum NumR rpowi st = (incell_sum st + / 2 * image_sum st)%R.
@@ -45,4 +45,38 @@ Theorem C03_shell_indices_spec :
     NoDup (shell_indices k zero) /\ Sorted.StronglySorted lex_lt (shell_indices k zero).
 Proof. exact shell_indices_spec. Qed.
 Print Assumptions C03_shell_indices_spec.
+
+Theorem C03_lj_score_site_shift :
+  forall (st : ljstateR) (n m : Z), Forall int_sym (l_syms NumR st) -> lj_score NumR rpowi {|
+    l_syms := l_syms NumR st; l_site := shift_site (l_site NumR st) n m; l_cell := l_cell NumR
+    st; l_shape := l_shape NumR st |} = lj_score NumR rpowi st.
+Proof. exact lj_score_site_shift. Qed.
+Print Assumptions C03_lj_score_site_shift.
+
+Theorem C03_image_sum_window_independent :
+  forall (st : ljstateR) (X rho : R), lj_wf st X rho -> forall k : Z, (3 <= k)%Z -> image_sum_k
+    st k = image_sum_k st 3.
+Proof. exact image_sum_window_independent. Qed.
+Print Assumptions C03_image_sum_window_independent.
+
+Theorem C03_lj_score_is_infinite_lattice_sum :
+  forall (st : ljstateR) (X rho : R), lj_wf st X rho -> forall k : Z, (3 <= k)%Z -> lj_score
+    NumR rpowi st = Some (- (incell_sum st + / 2 * image_sum_k st k) / INR (length (l_syms NumR
+    st)))%R.
+Proof. exact lj_score_is_infinite_lattice_sum. Qed.
+Print Assumptions C03_lj_score_is_infinite_lattice_sum.
+
+Theorem C03_window_hypotheses_satisfiable :
+  lj_wf example_lj_state (7 / 2) 0.
+Proof. exact example_lj_state_wf. Qed.
+Print Assumptions C03_window_hypotheses_satisfiable.
+
+Theorem C03_outside_three_no_energy :
+  forall (st : ljstateR) (X rho : R), lj_wf st X rho -> forall (p1 p2 : tfR) (n m : Z), In p1
+    (lj_relative NumR st) -> In p2 (lj_relative NumR st) -> (3 < Z.abs n)%Z \/ (3 < Z.abs m)%Z
+    -> ljshape_energy NumR rpowi (map (lj_transform NumR (to_cartesian_isometry NumR (l_cell
+    NumR st) p1)) (l_shape NumR st)) (map (lj_transform NumR (to_cartesian_translate NumR
+    (l_cell NumR st) p2 n m)) (l_shape NumR st)) = 0%R.
+Proof. exact outside_three_no_energy. Qed.
+Print Assumptions C03_outside_three_no_energy.
 
